@@ -534,3 +534,8 @@ def success_edge(fn, cs, _depth=0):
             if okb is not None and okb != errb:
                 return (i, okb, errb)
     return None
+
+
+def canon_path(path):
+    """canonical form of a rendered place path: success-unwrapping suffixes `?`, `@Some.0`, `@Ok.0` -> `!`"""
+    return re.sub(r"\?|@(Some|Ok|Continue)\.0", "!", path)
